@@ -4,6 +4,7 @@ package main
 import (
 	"bufio"
 	"bytes"
+	"crypto/sha256"
 	"encoding/binary"
 	"encoding/json"
 	"fmt"
@@ -83,6 +84,27 @@ func buildCase(s txgen.TxSpec) {
 			c.Violate("Clone/would-abort-the-process", "the standard serialisation does not parse: "+err.Error(), s)
 		} else if cl := tx.Clone(); !bytes.Equal(cl.ExtendedBytes(), ext) || cl.TxID() != id {
 			c.Violate("Clone/fields", "clone differs", s)
+		}
+	}
+	// the id is a function of the serialisation, nothing else: after fields of the SAME object have been edited in
+	// place (as fee bumping, re-sequencing and change adjustment do) it is the hash of what the object now serialises to
+	if len(tx.Inputs)+len(tx.Outputs) > 0 {
+		_ = tx.TxIDBytes()
+		tx.LockTime ^= 0x5a5a
+		tx.Version += 3
+		if len(tx.Inputs) > 0 {
+			tx.Inputs[len(tx.Inputs)-1].SequenceNumber ^= 0x11
+		}
+		if len(tx.Outputs) > 0 {
+			tx.Outputs[0].Satoshis ^= 7
+		}
+		h1 := sha256.Sum256(tx.Bytes())
+		h2 := sha256.Sum256(h1[:])
+		for i, j := 0, 31; i < j; i, j = i+1, j-1 {
+			h2[i], h2[j] = h2[j], h2[i]
+		}
+		if got := tx.TxID(); got != common.Hex(h2[:]) || !bytes.Equal(tx.TxIDBytes(), h2[:]) {
+			c.Violate("TxID/not-the-hash-of-the-current-serialisation", fmt.Sprintf("after in-place edits TxID() = %s, reversed double SHA-256 of Bytes() = %x", got, h2), s)
 		}
 	}
 	coq := fmt.Sprintf("CBuild %s %d %d %s %s", txgen.Coq(s), len(std), len(ext), common.CoqStr(id), common.CoqStr(common.Sha256Hex(ext)))
